@@ -30,7 +30,8 @@ fn run_case(case: &[String]) -> String {
     let uri: SipUri = case[3].parse().expect("uri");
     let body = unhex(&case[4]);
     let mut store = CredentialStore::new();
-    for e in case[5].split(';').filter(|x| !x.is_empty()) {
+    // "<realm>=<user>:<password>" (hex), "*" for the default; a later entry for a realm is a second add_for_realm
+    fn put(store: &mut CredentialStore, e: &str) {
         let (realm, up) = e.split_once('=').unwrap();
         let (u, p) = up.split_once(':').unwrap();
         let creds = DigestCredentials::new(s(u), s(p));
@@ -39,6 +40,9 @@ fn run_case(case: &[String]) -> String {
         } else {
             store.add_for_realm(s(realm), creds);
         }
+    }
+    for e in case[5].split(';').filter(|x| !x.is_empty()) {
+        put(&mut store, e);
     }
     let line = RequestLine { method, uri: Box::new(uri) };
     let mut auth = DigestAuthenticator::default();
@@ -51,7 +55,11 @@ fn run_case(case: &[String]) -> String {
     let mut session = UacAuthSession::new(auth);
     let mut outs: Vec<String> = vec![];
     for step in case[6].split(';').filter(|x| !x.is_empty()) {
-        if step == "U" {
+        if let Some(e) = step.strip_prefix('C') {
+            // the application stores (other) credentials between two requests
+            put(&mut store, e);
+            outs.push("C[]".to_string());
+        } else if step == "U" {
             let mut h = Headers::new();
             session.authorize_request(&mut h);
             let vals: Vec<String> = h
